@@ -1226,9 +1226,10 @@ def check_cases(res: Result, cases: list[dict[str, Any]], use_lean: bool, in_sco
                 {"case": small, "failing_step": len(small["steps"]) - 1, "bound": "2^-30 * max(1,|exact|)"},
             )
         if use_lean:
+            probe_steps = {k for k, key, _ in failures if key.startswith("probe:")}
             for si, st in enumerate(case["steps"]):
-                if st["solver"] in LANCZOS and "exc" in observations[si]:
-                    continue
+                if si in probe_steps:
+                    continue  # SciPy break-down / inaccuracy of a Lanczos-type solver: counted, not judged
                 diff = _td_model_diff(system, st, observations[si], model[(ci, si)])
                 if diff is None:
                     res.traces_validated += 1
